@@ -268,3 +268,6 @@ PROPS["C05"] = dict(
                  "(Ok or Err, engine usable afterwards); TLC checks that the reference decoder is total on the corruptions",
                  "a loop over range(1, 2^40) is excluded: a finite but enormous computation the template itself asks for"],
 )
+
+import c02
+PROPS["C02"] = dict(run=c02.run, replay=c02.replay)
